@@ -1,6 +1,7 @@
 //! vlab: runtime-monitoring laboratory for aldrin (see /verif/DESIGN.md).
 #![allow(clippy::all)]
 
+pub mod bus;
 pub mod checks;
 pub mod codec;
 pub mod guard;
